@@ -140,6 +140,226 @@ def hasher_events(fn, closures=()):
     return [e for _, e in sorted(ev, key=lambda x: x[0])]
 
 
+# ---- map kernels (symbolic evaluation) -------------------------------------------------------------------
+
+def _map_models():
+    from arklib import symex as SX
+    F = "ark_ff::fields::Field"
+
+    def extra(m):
+        def legendre(ex, st, fr, t, a):
+            return SX.Obj(adt="Legendre", fields={0: SX.q_of(ex.deref(a[0]))})
+        m.on(SX.by(F, "legendre"), legendre)
+
+        def is_qr(ex, st, fr, t, a):
+            d = ex.deref(a[0])
+            return SX.Cond("qr", d.fields[0]) if isinstance(d, SX.Obj) and d.adt == "Legendre" and d.fields[0] is not None else SX.TOP
+        m.on(SX.by(None, "is_qr"), is_qr)
+
+        def is_qnr(ex, st, fr, t, a):
+            d = ex.deref(a[0])
+            return SX.Cond("qr", d.fields[0], None, True) if isinstance(d, SX.Obj) and d.adt == "Legendre" and d.fields[0] is not None else SX.TOP
+        m.on(SX.by(None, "is_qnr"), is_qnr)
+
+        def sqrt(ex, st, fr, t, a):
+            q = SX.q_of(ex.deref(a[0]))
+            name = "Y%d" % len([e for e in st.events if e[0] == "sqrt"])
+            st.events.append(("sqrt", name, q))
+            return SX.some(SX.Obj(name=name))
+        m.on(SX.by(F, "sqrt"), sqrt)
+
+        def parity(ex, st, fr, t, a):
+            q = SX.q_of(ex.deref(a[0]))
+            st.events.append(("parity", q))
+            return SX.Cond("par", q)
+        m.on(SX.by(None, "parity"), parity)
+
+        def new_unchecked(ex, st, fr, t, a):
+            if len(a) == 2:
+                x, y = SX.q_of(ex.deref(a[0])), SX.q_of(ex.deref(a[1]))
+                st.events.append(("point", x, y))
+                return SX.Obj(adt="Affine", fields={0: x, 1: y})
+            return NotImplemented
+        m.on(SX.by(None, "new_unchecked"), new_unchecked)
+        m.on(SX.by(None, "is_on_curve"), lambda ex, st, fr, t, a: True)
+    return SX.ring_models(extra)
+
+
+def _run_map(facts, fn, consts, u):
+    from arklib import symex as SX
+
+    def cv(d, k, ctx=()):
+        return consts.get(d.rsplit("::", 1)[-1])
+    ex = SX.Engine(facts, fn.unit, _map_models(), max_paths=200, max_depth=3, inline_limit=0, const_value=cv)
+    out = []
+    for p in ex.run(fn, [u]):
+        if "diverge" in p.flags or "cut" in p.flags or "panic" in p.flags:
+            continue
+        pts = [e for e in p.st.events if e[0] == "point"]
+        sq = [e for e in p.st.events if e[0] == "sqrt"]
+        out.append({"assume": list(p.assume), "points": pts, "sqrt": sq, "flags": set(p.flags)})
+    return out
+
+
+def _lin(y, name):
+    """y must be alpha * Y (linear, no constant term) in the sqrt symbol: returns alpha or None"""
+    from arklib.poly import Q, Poly
+    if y is None:
+        return None
+    y0 = y.subst(name, Poly())
+    if not y0.is_zero():
+        return None
+    return y.subst(name, Q.const(1).n)
+
+
+def check_maps(res, facts):
+    from arklib import symex as SX
+    from arklib.poly import Q
+    rule = res.rule("R-MAPS", "map kernels: candidate x-coordinates and g(x) as in RFC 9380, y^2 = g(x) on every arm [polynomial identities, sqrt as a symbol with Y^2 = its argument], exceptional inputs", 7)
+    fns = {}
+    for f in facts.fns(unit="ws", crate="ark_ec"):
+        if f.name == "map_to_curve" and f.kind != "Closure":
+            for tag in ("swu", "elligator2"):
+                if "curve_maps::" + tag in f.id:
+                    fns[tag] = f
+    A, B, Z, u = Q.var("A"), Q.var("B"), Q.var("Z"), Q.var("u")
+    # ---------------- simplified SWU ----------------
+    f = fns.get("swu")
+    if f is None:
+        rule.bad("ark_ec|SWUMap::map_to_curve", "anchor missing")
+    else:
+        g = lambda x: x * x * x + A * x + B
+
+        def arms(paths, Zv, uv, want_x1=None):
+            """returns {(qr?): [problems]} over the returning paths"""
+            found = {}
+            for p in paths:
+                if len(p["points"]) != 1 or len(p["sqrt"]) != 1:
+                    continue
+                qr = [c for c in p["assume"] if c.kind == "qr"]
+                if len(qr) != 1:
+                    continue
+                is_qr = not qr[0].neg
+                gx1 = qr[0].a
+                _, name, arg = p["sqrt"][0]
+                _, x, y = p["points"][0]
+                probs = []
+                alpha = _lin(y, name)
+                if alpha is None or x is None or arg is None:
+                    probs.append("y is not a multiple of the computed square root")
+                else:
+                    resid = alpha * alpha * arg - g(x)
+                    if not resid.is_zero():
+                        probs.append("y^2 - (x^3 + A x + B) does not vanish identically (y = %s*sqrt(%s), x = %s)" % (str(alpha)[:60], str(arg)[:60], str(x)[:80]))
+                    if is_qr and not arg.equals(gx1):
+                        probs.append("the root taken on the square arm is of %s, not of g(x1)" % str(arg)[:60])
+                    if (not is_qr) and not arg.equals(Zv * gx1):
+                        probs.append("the root taken on the non-square arm is of %s, not of ZETA*g(x1)" % str(arg)[:60])
+                    if is_qr and want_x1 is not None and not x.equals(want_x1):
+                        probs.append("x1 = %s, RFC 9380 requires %s" % (str(x)[:80], str(want_x1)[:80]))
+                found.setdefault(is_qr, []).append(probs)
+            return found
+        # generic: Z^2 u^4 + Z u^2 != 0
+        paths = [p for p in _run_map(facts, f, {"COEFF_A": A, "COEFF_B": B, "ZETA": Z}, SX.Obj(name="u"))
+                 if not any(c.kind == "zero" and not c.neg and "u" in repr(c.a) for c in p["assume"])]
+        tv1 = Z * Z * u * u * u * u + Z * u * u
+        want_x1 = (Q.const(0) - B) / A * (Q.const(1) + Q.const(1) / tv1)
+        fa = arms(paths, Z, u, want_x1)
+        for is_qr, label in ((True, "g(x1) square"), (False, "g(x1) non-square")):
+            key = "ark_ec|SWUMap::map_to_curve|generic|%s" % label
+            if is_qr not in fa:
+                rule.undecided(key, "no returning path found on this arm", f.loc)
+            else:
+                probs = sorted({q for ps in fa[is_qr] for q in ps})
+                (rule.bad if probs else rule.ok)(key, "; ".join(probs) if probs else "%d sign sub-paths: y^2 = g(x) identically%s" % (len(fa[is_qr]), ", x1 = (-B/A)(1 + 1/(Z^2u^4+Zu^2))" if is_qr else ", x2 = Z u^2 x1 with y2 = Z u^3 sqrt(Z g(x1))"), f.loc)
+        # exceptional: u = 0, and Z u^2 = -1
+        for label, consts, uval, Zv in (("u=0", {"COEFF_A": A, "COEFF_B": B, "ZETA": Z}, Q.const(0), Z),
+                                        ("Z*u^2=-1", {"COEFF_A": A, "COEFF_B": B, "ZETA": Q.const(0) - Q.const(1) / (u * u)}, SX.Obj(name="u"), Q.const(0) - Q.const(1) / (u * u))):
+            key = "ark_ec|SWUMap::map_to_curve|exceptional %s" % label
+            paths = _run_map(facts, f, consts, uval)
+            fa = arms(paths, Zv, None, B / (Zv * A))
+            if True not in fa:
+                rule.undecided(key, "no returning path on the square arm", f.loc)
+            else:
+                probs = sorted({q for ps in fa[True] for q in ps})
+                (rule.bad if probs else rule.ok)(key, "; ".join(probs) if probs else "x1 = B/(Z*A), y^2 = g(x1) (the other arm is excluded by C16: g(B/(ZA)) is a square)", f.loc)
+    # ---------------- Elligator 2 ----------------
+    f = fns.get("elligator2")
+    if f is None:
+        rule.bad("ark_ec|Elligator2Map::map_to_curve", "anchor missing")
+    else:
+        J, K = Q.var("J"), Q.var("K")
+        jk = J / K
+        kinv2 = Q.const(1) / (K * K)
+        g = lambda x: x * x * x + jk * x * x + x * kinv2
+
+        def analyse(paths, Zv, want_x1):
+            out = {}
+            for p in paths:
+                if len(p["points"]) != 1 or len(p["sqrt"]) != 1:
+                    continue
+                qr = [c for c in p["assume"] if c.kind == "qr"]
+                if len(qr) != 1:
+                    continue
+                is_qr = not qr[0].neg
+                gx1 = qr[0].a
+                _, name, arg = p["sqrt"][0]
+                _, v, w = p["points"][0]
+                probs = []
+                x1 = want_x1
+                x2 = Q.const(0) - x1 - jk
+                if not gx1.equals(g(x1)):
+                    probs.append("g(x1) is evaluated at a different point than x1 = %s (tested value %s)" % (str(want_x1)[:60], str(gx1)[:80]))
+                want_arg = g(x1) if is_qr else g(x2)
+                if not arg.equals(want_arg):
+                    probs.append("the square root on the %s arm is of %s, expected g(%s)" % ("square" if is_qr else "non-square", str(arg)[:80], "x1" if is_qr else "x2 = -x1 - J/K"))
+                # Montgomery (s, t) = (x K, y K) -> twisted Edwards (s/t, (s-1)/(s+1)); skip the tv2 = 0 sub-path
+                if any(c.kind == "zero" and not c.neg and name in repr(c.a) for c in p["assume"]):
+                    out.setdefault(is_qr, []).append(probs)
+                    continue
+                xx = x1 if is_qr else x2
+                s_ = xx * K
+                alpha_v = None
+                if v is not None and w is not None:
+                    # v = s / t with t = +-Y K  => v * t = s ;  w = (s - 1)/(s + 1)
+                    if not w.equals((s_ - Q.const(1)) / (s_ + Q.const(1))):
+                        probs.append("second Edwards coordinate is %s, expected (s-1)/(s+1) with s = x*K" % str(w)[:80])
+                    Y = Q.var(name)
+                    vt = v * Y * K
+                    if not (vt.equals(s_) or vt.equals(Q.const(0) - s_)):
+                        probs.append("first Edwards coordinate is %s, expected s/t with t = +-y*K" % str(v)[:80])
+                else:
+                    probs.append("output coordinates are not ring expressions")
+                out.setdefault(is_qr, []).append(probs)
+            return out
+        consts = {"COEFF_A_OVER_COEFF_B": jk, "ONE_OVER_COEFF_B_SQUARE": kinv2, "COEFF_B": K, "COEFF_A": J, "Z": Z}
+        paths = [p for p in _run_map(facts, f, consts, SX.Obj(name="u")) if not any(c.kind == "zero" and not c.neg and "u" in repr(c.a) and "Y" not in repr(c.a) for c in p["assume"])]
+        fa = analyse(paths, Z, (Q.const(0) - jk) / (Q.const(1) + Z * u * u))
+        # exactly one of g(x1), g(x2) is a square: g(x2) = Z u^2 g(x1) identically
+        x1 = (Q.const(0) - jk) / (Q.const(1) + Z * u * u)
+        ident = (g(Q.const(0) - x1 - jk) - Z * u * u * g(x1)).is_zero()
+        for is_qr, label in ((True, "g(x1) square"), (False, "g(x1) non-square")):
+            key = "ark_ec|Elligator2Map::map_to_curve|generic|%s" % label
+            if is_qr not in fa:
+                rule.undecided(key, "no returning path on this arm", f.loc)
+            else:
+                probs = sorted({q for ps in fa[is_qr] for q in ps})
+                if not ident:
+                    probs.append("g(x2) = Z u^2 g(x1) does not hold for the specified x1, x2")
+                (rule.bad if probs else rule.ok)(key, "; ".join(probs) if probs else "x1 = -(J/K)/(1+Zu^2), x2 = -x1 - J/K, root of g(x) on the right candidate, (v, w) = (s/t, (s-1)/(s+1)); g(x2) = Z u^2 g(x1)", f.loc)
+        # exceptional: 1 + Z u^2 = 0
+        key = "ark_ec|Elligator2Map::map_to_curve|exceptional 1+Z*u^2=0"
+        Zx = Q.const(0) - Q.const(1) / (u * u)
+        consts = dict(consts, Z=Zx)
+        paths = _run_map(facts, f, consts, SX.Obj(name="u"))
+        fa = analyse(paths, Zx, Q.const(0) - jk)
+        if not fa:
+            rule.undecided(key, "no returning path", f.loc)
+        else:
+            probs = sorted({q for ps in fa.values() for pp in ps for q in pp}, key=lambda q: (not q.startswith(("g(x1)", "x1 =")), q))
+            (rule.bad if probs else rule.ok)(key, "; ".join(probs[:3]) if probs else "x1 = -(J/K) (RFC 9380 6.7.1 step 2), x2 = 0", f.loc)
+
+
 def check_xmd(res, facts):
     rule = res.rule("R-XMD", "expand_message_xmd / DST construction feed the hash in the order of RFC 9380 5.3.1 / 5.3.3", 3)
     fns = {}
@@ -345,6 +565,7 @@ def run(ctx, res):
     check_len(res, facts)
     check_sgn0(res, facts)
     check_cleared(res, facts)
+    check_maps(res, facts)
     return {
         "level": "other",
         "explanation": "Ordering / provenance rules over the MIR of the message expander, hash_to_field and the hash-to-curve wrapper: each hash `update` argument is abstracted to its provenance (Z_pad, message, length, counter, DST', b_0, xor) and the sequence between finalisations compared with RFC 9380; length and slicing expressions are checked by dataflow; the final result is shown to pass cofactor clearing. Equality with an independent RFC implementation on concrete messages (needs SHA-2) and that the SWU / Elligator / isogeny maps land on the curve for every field element are NOT decided here (map constants: C16).",
